@@ -101,11 +101,19 @@ JColonBlank(rec) == Checks("blank-before-colon",
        <<rec.ok_blank, "a document with blanks between field names and colons was rejected">>,
        <<rec.ok_blank => rec.paras_blank = rec.paras_plain, "blanks between a field name and its colon change the paragraphs read (they end up in the name)">> >>)
 
+\* the typed documents written again: Marshal of what a typed parser returned, parsed by the same parser, is the same document
+JRemarshal(rec) ==
+    IF ~rec.parsed \/ ~HasField(rec, "remarshal") THEN V(TRUE, "aux", "")
+    ELSE Checks("remarshal-" \o rec.in.kind,
+       << <<rec.remarshal.marshal_ok, "Marshal failed on a typed document that its parser returned">>,
+          <<rec.remarshal.ok, "the marshalled typed document is rejected by its own parser">>,
+          <<rec.remarshal.flat = rec.flat, "marshalling the typed document and parsing that text again does not give the same document">> >>)
+
 Judge(rec) ==
     CASE rec.ev = "vacc" -> JVacc(rec) [] rec.ev = "archs" -> JArchs(rec) [] rec.ev = "wild" -> JWild(rec)
       [] rec.ev = "byhash" -> JByHash(rec) [] rec.ev = "getdsc" -> JGetDsc(rec) [] rec.ev = "compressor" -> JCompressor(rec)
       [] rec.ev = "decompressor" -> JDecompressor(rec) [] rec.ev = "xzdict" -> JXz(rec) [] rec.ev = "loadfile" -> JLoadFile(rec)
-      [] rec.ev = "filevariants" -> JFileVariants(rec) [] rec.ev = "clheader" -> JClHeader(rec) [] rec.ev = "srcfault" -> JSrcFault(rec) [] rec.ev = "colonblank" -> JColonBlank(rec)
+      [] rec.ev = "filevariants" -> JFileVariants(rec) [] rec.ev = "clheader" -> JClHeader(rec) [] rec.ev = "srcfault" -> JSrcFault(rec) [] rec.ev = "colonblank" -> JColonBlank(rec) [] rec.ev = "doc" -> JRemarshal(rec) [] rec.ev = "keys" -> V(TRUE, "aux", "")
       [] OTHER -> V(FALSE, "unknown-event", "unknown event")
 
 Init == l \in 1..Len(Trace) /\ verdict = Pending
